@@ -43,7 +43,9 @@ def gen_class(rng, name, depth, counter, broken=False):
             members.append([nm, ['foreign']])
         else:
             members.append([nm, ['data']])
-    return {'name': name, 'members': members, 'bases': []}
+    # a third of the classes have a metaclass other than type (abc.ABC, ABCMeta, a user metaclass): nothing about the walk depends on it
+    bases = rng.choice([[], [], [], [], ['abc.ABC'], ['metaclass=abc.ABCMeta'], ['metaclass=Meta']])
+    return {'name': name, 'members': members, 'bases': bases}
 
 
 def coq_func(m, counter):
@@ -158,7 +160,7 @@ def run(ctx):
         case = {'cls': c, 'O0': (not warn) and ctx.rng.random() < 0.2, 'warn_decor': warn}
         if ctx.rng.random() < 0.4:
             case['base'] = {'name': 'Base', 'members': [['b0', ['func', True, False, False]], ['b1', ['classmethod', True, False, False]]], 'bases': []}
-            c['bases'] = ['Base']
+            c['bases'] = ['Base'] + c['bases']
         cases.append(case)
     rows, index = [], []
     for lo in range(0, n, 200):
